@@ -1,0 +1,59 @@
+//! Verification hooks (only with `--cfg comrak_verif`): thin pass-throughs to private helpers
+//! so that they can be driven directly. Add-only; nothing here exists in a normal build.
+use std::collections::VecDeque;
+
+/// A source position as `(start line, start column, end line, end column)`.
+pub type Sp4 = (usize, usize, usize, usize);
+
+/// `cm::shortest_unused_sequence`
+pub fn shortest_unused_sequence(literal: &[u8], f: u8) -> usize {
+    crate::cm::verif_shortest_unused_sequence(literal, f)
+}
+
+/// `cm::longest_char_sequence`
+pub fn longest_char_sequence(literal: &[u8], ch: u8) -> usize {
+    crate::cm::verif_longest_char_sequence(literal, ch)
+}
+
+/// `Spx::consume` applied to `rems` in turn on a queue made of `segs`; returns the results and
+/// what is left of the queue.
+pub fn spx_consume(segs: &[(Sp4, usize)], rems: &[usize]) -> (Vec<usize>, Vec<(Sp4, usize)>) {
+    let q: VecDeque<_> = segs.iter().map(|(sp, x)| ((*sp).into(), *x)).collect();
+    let mut spx = crate::parser::Spx::verif_new(q);
+    let res = rems.iter().map(|r| spx.consume(*r)).collect();
+    let left = spx
+        .verif_into_inner()
+        .into_iter()
+        .map(|(sp, x)| {
+            (
+                (sp.start.line, sp.start.column, sp.end.line, sp.end.column),
+                x,
+            )
+        })
+        .collect();
+    (res, left)
+}
+
+/// `entity::unescape`
+pub fn entity_unescape(text: &[u8]) -> Option<(Vec<u8>, usize)> {
+    crate::entity::unescape(text)
+}
+
+/// `strings::normalize_code`
+pub fn normalize_code(v: &[u8]) -> Vec<u8> {
+    crate::strings::normalize_code(v)
+}
+
+/// `strings::remove_trailing_blank_lines`
+pub fn remove_trailing_blank_lines(s: &str) -> String {
+    let mut s = s.to_string();
+    crate::strings::remove_trailing_blank_lines(&mut s);
+    s
+}
+
+/// `strings::chop_trailing_hashtags`
+pub fn chop_trailing_hashtags(v: &[u8]) -> Vec<u8> {
+    let mut v = v.to_vec();
+    crate::strings::chop_trailing_hashtags(&mut v);
+    v
+}
